@@ -155,10 +155,15 @@ func (h *Handler) send(ctx context.Context, conn *net.UDPConn, queue chan data, 
 				}
 				h.onError(conn, e)
 			}
+			if len(body) > len(buffer)-8 {
+				h.onError(conn, core.InvalidResponseError{})
+				index |= 0x8000
+				body = convert.ToUnsafeBytes("response too large for a UDP datagram")
+			}
 			header := makeHeader(len(body), index)
 			copy(buffer[:], header[:])
-			copy(buffer[8:], body)
-			if _, err := conn.WriteToUDP(buffer[:8+len(body)], addr); err != nil {
+			n := 8 + copy(buffer[8:], body)
+			if _, err := conn.WriteToUDP(buffer[:n], addr); err != nil {
 				if err, ok := err.(*net.OpError); ok && err.Addr == nil {
 					h.reportError(ctx, errChan, err)
 					return
